@@ -1,12 +1,18 @@
 #!/bin/bash
 # usage: try_seed.sh <dir with patch.diff + demo.py> <property id> [tier]
-# applies the patch to /repo, runs the demo and the check, reverts.  Never leaves /repo dirty.
-d=$1; id=$2; tier=${3:-quick}
+# applies the patch to /repo, runs the demo and the check, reverts.  Never leaves /repo dirty; the evidence file of the
+# property (which must describe the unchanged tree) is put back afterwards.  Serialised with run_all.sh by a file lock.
+d=$(readlink -f "$1"); id=$2; tier=${3:-quick}
+exec 9>/tmp/koala-repo.lock; flock 9
 cd /repo || exit 2
 if [ -n "$(git status --porcelain)" ]; then echo "repo dirty, abort"; exit 2; fi
 git apply "$d/patch.diff" || { echo "patch does not apply"; exit 2; }
-echo "--- demo with patch:"; (cd /tmp && PYTHONPATH=/repo/src timeout 600 /venv/bin/python "$d/demo.py" >/tmp/demo_out.txt 2>&1; echo "exit=$?"; tail -3 /tmp/demo_out.txt)
+trap 'git -C /repo checkout -- .' EXIT
+ev=/verif/evidence/$id.json; [ -f $ev ] && cp $ev /tmp/evidence_keep_$id.json
+out=/tmp/demo_out_$$.txt
+echo "--- demo with patch:"; (cd /tmp && MPLBACKEND=Agg PYTHONPATH=/repo/src timeout 600 /venv/bin/python "$d/demo.py" >$out 2>&1; echo "exit=$?"; tail -3 $out)
 echo "--- check $id ($tier) with patch:"; (cd /verif && timeout 3000 /venv/bin/python harness/check.py $id --tier $tier 2>&1 | grep -v conda | tail -3)
-git -C /repo checkout -- . 
-echo "--- demo clean:"; (cd /tmp && PYTHONPATH=/repo/src timeout 600 /venv/bin/python "$d/demo.py" >/tmp/demo_out.txt 2>&1; echo "exit=$?")
+git -C /repo checkout -- .
+[ -f /tmp/evidence_keep_$id.json ] && mv /tmp/evidence_keep_$id.json $ev
+echo "--- demo clean:"; (cd /tmp && MPLBACKEND=Agg PYTHONPATH=/repo/src timeout 600 /venv/bin/python "$d/demo.py" >$out 2>&1; echo "exit=$?"); rm -f $out
 git -C /repo status --porcelain
